@@ -166,13 +166,23 @@ CLAIMS = {
          'Gallina axioms: none. Unlock-synchronises-with-Lock (Go memory model) is taken as given. What the theorem cannot exhibit: the schedules themselves - those come from real goroutines.',
  'technique': 'Coq proof of lockset soundness over all event traces (any threads, any interleaving): two accesses by different threads under one correctly used lock are separated by Rel(t1);Acq(t2); '
               'per-run obligation evaluated by coqc over an access summary REGENERATED from the Go sources (translator); plus the real service hammered by 16 goroutines under the happens-before race detector with a deadlock watchdog',
- 'text': 'PARTIAL. Machine-checked once: C16_lockset_sound (for every trace in which the lock is acquired only when free and released only by its holder, accesses to one location by two threads that each hold the lock are '
+ 'text': 'PARTIAL. Machine-checked once: C16_lockset_sound and C16_obligation_sound (for every trace in which the lock is acquired only when free and released only by its holder, accesses to one location by two threads that each hold the lock are '
          'ordered by a release/acquire pair). Re-checked on every run against the current sources: a go/parser translator follows Lock/Unlock/defer regions in every non-test function of internal/..., including helpers '
          'all of whose call sites hold the lock (fixpoint), and emits every access to a struct field or package variable as (location, function, write?, under its lock?, start-up?); coqc evaluates the obligation that every '
          'location written while serving is accessed under its lock everywhere, except for a committed list with reasons; a new unprotected location is a VIOLATION (no-failing-input-found unless the detector also sees it). '
          'Executed schedules: 4 OIDC filters (static and discovered endpoints x memory and Redis) sharing configuration objects, TLS pool, discovery cache, JWKS provider and stores are driven through the real '
          'ExtAuthZFilter.Check by 16 goroutines issuing every request kind while the secret controller reconciles rotating secrets and the CA file is rewritten; built with -race; every report that involves the service is '
          'canonicalised to its writer function(s) and reported with the two stacks as the replay; runtime aborts (concurrent map access) and a stalled request counter (deadlock) are findings too.'},
+    'C18': {'note': 'Trusted: Coq kernel+vm_compute; hand-written model (handler model validated by lock-step replay in C01-C15; factory model validated here against the real factory); Go harness; store timeouts read by reflection. '
+         'Gallina axioms: none. The property as stated is REFUTED for shared stores (theorems with witnesses); those are known findings, the positive theorems carry stores_distinct.',
+ 'technique': 'Coq proof over ALL histories of checks through any number of filters (each check = any run of the proved handler model with its filter\'s configuration against the store the factory hands it): '
+              'an OK is always for a session bound through a filter with the same store (invariant by induction over the history); corollaries under stores_distinct; refutation witnesses computed in Coq; '
+              'correspondence: real factory + real Check over all 2- and 3-filter store assignments x ordered pairs x cookie namings',
+ 'text': 'Machine-checked: C18_ok_has_origin (any configuration, history, cookie naming, store failures: an OK verdict of filter g is for a session whose tokens were bound by a check of a filter handed the same store), '
+         'C18_isolated_when_stores_distinct (with a store per filter: honoured only by the creating filter), C18_own_timeouts_when_stores_distinct, and the refutations C18_refuted_shared_store (three concrete checks: login at A, '
+         'OK at B with A\'s ID token forwarded) and C18_refuted_foreign_timeouts (memory: first filter wins; Redis: last filter wins). Tie to the code on every run: all 36 assignments of {memory, Redis A, Redis B} to 2 and 3 '
+         'filters with random timeouts are assembled by the REAL store factory and ExtAuthZFilter; store identity per pair, store timeouts per filter and, per ordered pair x 6 cookie namings, a real login at i followed by '
+         'the presentation at j are compared with the model\'s prediction (shares && request_sid under j\'s prefix); cross-filter OKs and foreign timeouts are monitor failures (known findings by store kind).'},
     'C06': {'note': 'Trusted: Coq kernel+vm_compute; the translator and its classification table; the OS CSPRNG. The syntactic summary cannot prove disjointness of draws (covered by the relation battery, i.e. '
          'tested). Gallina axioms: none.',
  'technique': "Coq theorems on an abstract generator (time-seeded => attacker's candidate list of size <= window always contains the id; CSPRNG with draws of its own => the public view is "
